@@ -2,9 +2,8 @@ package vuego
 
 import (
 	"path"
+	"strconv"
 	"strings"
-
-	"github.com/titpetric/vuego/internal/ulid"
 )
 
 // VueContext carries template inclusion context and request-scoped state used during evaluation.
@@ -29,7 +28,8 @@ type VueContext struct {
 	Processors []NodeProcessor
 
 	// v-once element tracking for deep clones
-	seen map[string]bool
+	seen    map[string]bool
+	seenSeq int
 
 	// SlotScope contains slot content for the current component.
 	SlotScope *SlotScope
@@ -112,6 +112,10 @@ func (ctx VueContext) Stack() *Stack {
 }
 
 // nextSeenID returns a unique ID for tracking v-once elements across deep clones.
+// IDs are the template filename plus the position of the element among the v-once elements
+// of that template: the same element gets the same ID wherever it is instantiated (loop
+// iterations, repeated includes), distinct elements never share one.
 func (ctx *VueContext) nextSeenID() string {
-	return ulid.String()
+	ctx.seenSeq++
+	return ctx.FromFilename + "#" + strconv.Itoa(ctx.seenSeq)
 }
